@@ -4,6 +4,7 @@ import (
 	"fmt"
 	"go/ast"
 	"go/types"
+	"sort"
 	"strings"
 
 	"arkverif/checker/core"
@@ -27,6 +28,7 @@ func init() {
 			{ID: "C05/R3", Run: c05r3, Min: 1},
 			{ID: "C05/R4", Run: c05r4, Min: 1},
 			{ID: "C05/R5", Run: c05r5, Min: 1},
+			{ID: "C05/R6", Run: c05r6, Min: 1},
 		},
 	})
 }
@@ -209,5 +211,85 @@ func c05r5(c *core.Ctx) {
 	}
 	if n == 0 {
 		c.Undecide("C05/R5", "sites", "no filter method passes its relation slice")
+	}
+}
+
+// c05r6: the cache's table lists do not depend on how many rows a table currently holds. Nothing notifies the cache
+// when an empty table gets rows again (tables are offered on creation and recycling only), so a fill or update site
+// that skips empty tables loses them for good; emptiness is re-checked by the cached consumers on every use instead.
+func c05r6(c *core.Ctx) {
+	m := c.M
+	app := appendRoleOf(c)
+	rc := &rangeCtx{m: m}
+	fill := map[*core.Func]string{}
+	for _, f := range m.AllFuncs() {
+		core.InspectNoLits(f.Body, func(n ast.Node) bool {
+			switch x := n.(type) {
+			case *ast.CallExpr:
+				if X, ok := callTo(m, x, app); ok && X != nil && m.AccessPath(f, X).Has("cacheEntry.tables") {
+					fill[f] = "appends to a cache entry's table list"
+				}
+			case *ast.KeyValueExpr:
+				if litFieldKey(m, x) == "cacheEntry.tables" {
+					for _, e := range exprChain(m, f, x.Value, 0) {
+						ast.Inspect(e, func(y ast.Node) bool {
+							if call, ok := y.(*ast.CallExpr); ok {
+								if k, cal, _ := m.Callee(call); k == core.CallStatic && cal.Sig != nil && cal.Sig.Results().Len() == 1 {
+									if sl, ok := cal.Sig.Results().At(0).Type().(*types.Slice); ok && core.NamedName(sl.Elem()) == "tableID" {
+										fill[cal] = "computes the initial table list of a cache entry"
+									}
+								}
+							}
+							return true
+						})
+					}
+				}
+			}
+			return true
+		})
+	}
+	if len(fill) == 0 {
+		c.Undecide("C05/R6", "fill sites", "no function fills or updates a cache entry's table list")
+		return
+	}
+	var fs []*core.Func
+	for f := range fill {
+		fs = append(fs, f)
+	}
+	sort.Slice(fs, func(i, j int) bool { return fs[i].Pos() < fs[j].Pos() })
+	for _, f := range fs {
+		bad := ""
+		check := func(cond ast.Expr) {
+			if cond == nil {
+				return
+			}
+			ast.Inspect(cond, func(y ast.Node) bool {
+				if e, ok := y.(ast.Expr); ok {
+					if _, isLen := rc.tableLenRead(e); isLen && bad == "" {
+						bad = c.At(e.Pos())
+					}
+				}
+				return true
+			})
+		}
+		core.InspectNoLits(f.Body, func(n ast.Node) bool {
+			switch x := n.(type) {
+			case *ast.IfStmt:
+				check(x.Cond)
+			case *ast.ForStmt:
+				check(x.Cond)
+			case *ast.CaseClause:
+				for _, e := range x.List {
+					check(e)
+				}
+			}
+			return true
+		})
+		subject := f.Name + ": " + fill[f]
+		if bad == "" {
+			c.OK("C05/R6", subject, c.At(f.Pos()), "no branch depends on a table's current row count")
+		} else {
+			c.Violation("C05/R6", subject, bad, fmt.Sprintf("%s %s, but branches on a table's row count at %s; a table that is empty now and refilled later is never offered to the cache again, so the registered filter would miss its entities", f.Name, fill[f], bad))
+		}
 	}
 }
